@@ -53,4 +53,24 @@ def PemKind.label : PemKind → Bytes
   | .privateKey => [80,82,73,86,65,84,69,32,75,69,89]                        -- PRIVATE KEY
   | .publicKey => [80,85,66,76,73,67,32,75,69,89]                            -- PUBLIC KEY
 
+/-- where the private key of a `KeyPair` is: in the stored document (a key rcgen generated or
+    loaded), or behind a `RemoteKeyPair` (`serialized_der` is then empty) -/
+inductive KeyHolder
+  | held (doc : Bytes)
+  | remote
+  deriving DecidableEq, Repr
+
+/-- key_pair.rs `serialize_der` (503-510); `none` = the announced panic
+    ("Serializing a remote key pair is not supported") -/
+def KeyHolder.serializeDer : KeyHolder → Option Bytes
+  | .held doc => some doc
+  | .remote => none
+
+/-- key_pair.rs `serialize_pem` (537-541): the text around what `serialize_der` hands out, and so
+    the same panic -/
+def KeyHolder.serializePem (k : KeyHolder) : Option Bytes :=
+  match k.serializeDer with
+  | some contents => some (pemEncode PemKind.privateKey.label contents)
+  | none => none
+
 end Rcgen.Model
